@@ -10,6 +10,8 @@
   G1d  an expression of static type str is passed to a parameter the callee iterates (`for s in error_strings`): the callee walks characters.
   G1e  a keyword argument that no parameter, attribute or string key anywhere in the package is called, passed to a callee whose **kwargs are
        only ever looked up by name: a misspelt option, dropped without a trace.
+  G3   a click command of jade/cli never reads one of its own parameters: the option is accepted and ignored.  Reported by the properties
+       whose statement the option belongs to (OPTION_PROPS), so that `-n` dropped by `jade pipeline create` is a C06 finding and nobody else's.
   G2   (scope: the model modules the property is anchored in) a pydantic validator with a normal path that returns no value: the field becomes None.
 """
 
@@ -18,8 +20,19 @@ import ast
 import json
 import os
 
-from ..lib import argument_slot_mismatches, enum_literal_compares, key_of, str_for_collection_args, uncalled_getters, unknown_keywords, validators_without_value
+from ..lib import argument_slot_mismatches, enum_literal_compares, key_of, str_for_collection_args, uncalled_getters, unknown_keywords, unused_cli_parameters, validators_without_value
 from ..report import RULES, rule
+
+# command-line option (parameter name) -> properties whose statement it is part of
+OPTION_PROPS = {
+    "max_nodes": ("C06",), "num_parallel_processes_per_node": ("C06",), "per_node_batch_size": ("C07",), "time_based_batching": ("C07",), "dry_run": ("C07",),
+    "try_add_blocked_jobs": ("C07", "C02"), "hpc_config": ("C07", "C18"), "local": ("C03",), "poll_interval": ("C05",), "reports": ("C20",), "force": ("C03", "C10"),
+    "resource_monitor_interval": ("C20",), "resource_monitor_type": ("C20",), "resource_monitor_stats": ("C20",), "enable_singularity": ("C19",), "container": ("C19",),
+    "failed": ("C13",), "missing": ("C13",), "successful": ("C13",), "submission_groups_file": ("C13", "C06"), "stage_num": ("C15",), "return_code": ("C15",),
+    "append_output_dir": ("C19",), "append_job_name": ("C19",), "cancel_on_blocking_job_failure": ("C04",), "minutes_per_job": ("C07", "C17"), "complete": ("C14",),
+    "no_distributed_submitter": ("C07",), "distributed_submitter": ("C07",), "output": ("C10",), "config_file": ("C17",), "submitter_params": ("C07",),
+}
+UNUSED_OK = {("pipeline.status", "verbose")}  # read by nobody on the pinned tree as well; the command does not log
 
 _ANCHORS = {}
 
@@ -94,3 +107,9 @@ def register(prop):
             r.bad(key_of(fn, "validator path without a value"), fn.loc(node.ast) if node.ast is not None else fn.loc(fn.node),
                   f"the pydantic validator {fn.short} can finish without `return <value>`: pydantic stores what the validator returns, so every value that passes validation on that path is replaced by None",
                   "the configured value reaches its consumer")
+        examined, bad = unused_cli_parameters(ctx)
+        mine = [(fn, p0) for fn, p0 in bad if prop in OPTION_PROPS.get(p0, ()) and (fn.short, p0) not in UNUSED_OK]
+        r.ok(f"{examined} click commands: every option that belongs to this property is read by its command")
+        for fn, p0 in mine:
+            r.bad(key_of(fn, f"option `{p0}` is never read"), fn.loc(fn.node),
+                  f"the command `{fn.short}` accepts `{p0}` (--{p0.replace('_', '-')}) and never reads it: what the user configured there is silently ignored", "the configured limit / option is honoured")
